@@ -134,8 +134,8 @@ mod tok {
                     }
                 }
                 Tok::Bool(b) => visitor.visit_bool(b),
-                Tok::TupleStruct(_, _) => {
-                    let r = visitor.visit_seq(Seq(self))?;
+                Tok::TupleStruct(_, n) => {
+                    let r = visitor.visit_seq(Seq(self, n))?;
                     match self.toks.get(self.pos) {
                         Some(Tok::End) => {
                             self.pos += 1;
@@ -147,18 +147,41 @@ mod tok {
                 Tok::End => Result::Err(TErr("unexpected end".into())),
             }
         }
+        /// like length-prefixed binary formats (bincode, postcard) the carrier hands out exactly the
+        /// number of elements the type announces; the stream must then be at its `End`
+        fn deserialize_tuple_struct<V: Visitor<'de>>(self, _name: &'static str, len: usize, visitor: V) -> Result<V::Value, TErr> {
+            match self.toks.get(self.pos) {
+                Some(Tok::TupleStruct(_, _)) => self.pos += 1,
+                _ => return Result::Err(TErr("expected a tuple struct".into())),
+            }
+            let r = visitor.visit_seq(Seq(self, len))?;
+            match self.toks.get(self.pos) {
+                Some(Tok::End) => {
+                    self.pos += 1;
+                    Ok(r)
+                }
+                _ => Result::Err(TErr("trailing elements in sequence".into())),
+            }
+        }
         serde::forward_to_deserialize_any! {
             bool i8 i16 i32 i64 i128 u8 u16 u32 u64 u128 f32 f64 char str string bytes byte_buf option unit unit_struct newtype_struct seq tuple
-            tuple_struct map struct enum identifier ignored_any
+            map struct enum identifier ignored_any
         }
     }
-    struct Seq<'b, 'a>(&'b mut De<'a>);
+    /// sequence access bounded by the announced length
+    struct Seq<'b, 'a>(&'b mut De<'a>, usize);
     impl<'de, 'b, 'a> SeqAccess<'de> for Seq<'b, 'a> {
         type Error = TErr;
         fn next_element_seed<T: DeserializeSeed<'de>>(&mut self, seed: T) -> Result<Option<T::Value>, TErr> {
+            if self.1 == 0 {
+                return Ok(None);
+            }
             match self.0.toks.get(self.0.pos) {
                 Some(Tok::End) | None => Ok(None),
-                _ => seed.deserialize(&mut *self.0).map(Some),
+                _ => {
+                    self.1 -= 1;
+                    seed.deserialize(&mut *self.0).map(Some)
+                }
             }
         }
     }
